@@ -228,6 +228,14 @@ pub fn json_str(x: &str) -> String {
     s
 }
 
+/// a move number as three base-10^9 limbs [high, middle, low]: TLC integers are 32-bit, the engine's
+/// move numbers are usize
+pub fn limbs(n: usize) -> String {
+    let n = n as u128;
+    let b = 1_000_000_000u128;
+    format!("[{},{},{}]", n / (b * b), (n / b) % b, n % b)
+}
+
 fn term_num(t: Option<Terminal>) -> u8 {
     match t {
         None => 0,
@@ -381,11 +389,12 @@ pub fn obs_fields(gs: &GameState, full: bool) -> String {
     let mn = gs.move_number();
     write!(
         s,
-        "\"ph\":{},\"b\":{},\"s\":{},\"mn\":{}",
+        "\"ph\":{},\"b\":{},\"s\":{},\"mn\":{},\"mnl\":{}",
         if play { 1 } else { 0 },
         json_u8s(&c),
         if gold { 1 } else { 2 },
-        mn
+        limbs(mn),
+        mn % 1_000_000_000
     )
     .unwrap();
     let mut st = 0usize;
@@ -571,7 +580,7 @@ pub fn obs_fields(gs: &GameState, full: bool) -> String {
                     if rplay { 1 } else { 0 },
                     json_u8s(&rc),
                     if r.is_p1_turn_to_move() { 1 } else { 2 },
-                    r.move_number(),
+                    limbs(r.move_number()),
                     rst,
                     rpp,
                     rhl,
